@@ -33,7 +33,10 @@ var Def = driver.PropDef{
 	Run:        Run,
 }
 
+var theCtx *core.Ctx
+
 func Run(c *core.Ctx) {
+	theCtx = c
 	pk := c.Pkg(pkg)
 	if pk == nil {
 		c.Undecidedf("anchor", pkg, token.NoPos, "package not loaded")
@@ -120,30 +123,7 @@ func recvType(f *types.Func) types.Type {
 
 // condCall: node executes <base>.<cond>.<method>() on a sync.Cond field of pipe; returns the field name.
 func condCalls(info *types.Info, n ast.Node, methods ...string) []string {
-	var out []string
-	for _, call := range cfgq.ExecCalls(n) {
-		sel, ok := ast.Unparen(call.Fun).(*ast.SelectorExpr)
-		if !ok {
-			continue
-		}
-		okm := false
-		for _, m := range methods {
-			if sel.Sel.Name == m {
-				okm = true
-			}
-		}
-		if !okm {
-			continue
-		}
-		f := core.CalleeFunc(info, call)
-		if f == nil || core.NamedTypePath(recvType(f)) != "sync.Cond" {
-			continue
-		}
-		if fs, ok := ast.Unparen(sel.X).(*ast.SelectorExpr); ok {
-			out = append(out, fs.Sel.Name)
-		}
-	}
-	return out
+	return ring.CondOps(theCtx, info, n, methods...)
 }
 
 func has(list []string, s string) bool {
